@@ -78,3 +78,33 @@ prop(
     explanation="find_entry_sse2 is modelled lane by lane; theorem for all pages/keys/starts; tie: both private search "
                 "functions run through hook H1 on the same pages as the extracted model, outputs compared exactly",
 )
+
+
+HIST_RULE = ("histories of 8-40 steps over 1-3 columns (hash/btree, counted or not, preimage, uniform keys, "
+             "none/lz4/snappy compression with thresholds 0/4096/max) and 3-9 keys per column; steps drawn from "
+             "{commit of 1-5 operations, process one commit, flush log, enact to end of log file, enact one record, "
+             "clean logs, drop + reopen}; value lengths from classes {0, <64, <4096, 4090-4100, 32700-32800 (single/"
+             "multi-part boundary), up to 150000}; after EVERY step every key of every column is read with get and "
+             "get_size. A history is non-trivial when some commit touches a (column, key) that an earlier commit, not "
+             "yet enacted at that moment, also touches; distinct = distinct token sequences")
+
+prop(
+    id="C01", module="Properties.C01", vfile="Properties/C01.v", level="proof", subcmd="c01",
+    theorems=["C01_reads_are_spec"],
+    counts={"quick": 1600, "thorough": 60000, "search": 8000},
+    rule=HIST_RULE,
+    assumptions=["key hash injective on the keys of a history (the harness uses distinct keys and the model identifies a key with its index)",
+                 "lz4/snappy round-trip (observed through bit-exact reads)",
+                 "pipeline stages are atomic steps of the model (thread interleavings inside a stage: C05)"],
+    explanation="three-layer pipeline model (commit overlay / log overlay / tables) with the planner, kill_logs and replay; "
+                "theorem by invariant over all histories; tie: stepping API of the real Db vs extracted model, every read after every step",
+)
+prop(
+    id="C03", module="Properties.C03", vfile="Properties/C03.v", level="proof", subcmd="c03",
+    theorems=["C03_close_persists_all"],
+    counts={"quick": 1200, "thorough": 40000, "search": 8000},
+    rule=HIST_RULE + "; C03 histories end with a drop + reopen and contain 2-4 further drops at random pipeline states",
+    assumptions=["crash half of C03 (synced records survive a crash) is decided by the C02/C12 checks",
+                 "without background threads (stepping API); threaded shutdown: C15"],
+    explanation="kill_logs modelled in its exact order, leftover log files replayed at open; theorem: after drop+open the tables alone hold every accepted write",
+)
